@@ -60,11 +60,13 @@ package plugin
 //@ props C18
 //@ may_panic true
 //@ ensures [one-configuration-and-one-construction-per-product] imp(getMaybeConf != nil, calls(getMaybeConf) == 1) && imp(calls(c.newPlugin.Call) == 1 && getMaybeConf != nil, result_of(getMaybeConf, 1) == nil)
+//@ at return c.newPlugin.Call assume [a-registered-constructor-returns-the-component-and-maybe-an-error] len(result_of(c.newPlugin.Call, 0)) >= 1 && len(result_of(c.newPlugin.Call, 0)) <= 2
 //@ at call c.newPlugin.Call assert [built-from-that-configuration] imp(getMaybeConf != nil, arg(a0) == result_of(getMaybeConf, 0)) && imp(getMaybeConf == nil, len(arg(a0)) == 0)
 
 // Factory made from a factory constructor: the configuration is obtained once, the registered factory constructor runs once.
 //@ func (c *factoryConstructor) NewFactory
 //@ props C18
+//@ may_panic true
 //@ ensures [configuration-obtained-once] imp(getMaybeConf != nil, calls(getMaybeConf) == 1) && imp(getMaybeConf == nil, calls(getMaybeConf) == 0)
 //@ ensures [configuration-failure-is-returned] imp(getMaybeConf != nil && result_of(getMaybeConf, 1) != nil, result1 == result_of(getMaybeConf, 1) && calls(c.callNewFactory) == 0)
 //@ ensures [factory-constructor-failure-is-returned] imp(calls(c.callNewFactory) == 1 && result_of(c.callNewFactory, 1) != nil, result1 == result_of(c.callNewFactory, 1) && result0 == nil)
@@ -75,10 +77,57 @@ package plugin
 //@ props C18
 //@ may_panic true
 //@ ensures [one-call-of-the-registered-factory-per-product] calls(factory.Call) == 1
+//@ ensures [the-factory-constructor-is-not-run-again] calls(c.callNewFactory) == 0
+//@ at return factory.Call assume [a-registered-factory-returns-the-component-and-maybe-an-error] len(result_of(factory.Call, 0)) >= 1 && len(result_of(factory.Call, 0)) <= 2
 //@ at call convertFactoryOutParams assert [its-results-converted-to-the-requested-shape] arg(out) == result_of(factory.Call, 0) && arg(pluginType) == c.pluginType
 
 //@ func (c *factoryConstructor) NewPlugin
 //@ props C18
+//@ may_panic true
 //@ at return factory.Call assume [a-registered-factory-returns-the-component-and-maybe-an-error] len(result_of(factory.Call, 0)) >= 1
 //@ ensures [factory-constructor-failure-is-returned] imp(result_of(c.callNewFactory, 1) != nil, err == result_of(c.callNewFactory, 1) && plugin == nil && calls(factory.Call) == 0)
 //@ at call c.callNewFactory assert [the-given-configuration] arg(maybeConf) == maybeConf0
+
+// ... and the factory constructor is not run again for a product (its products share what the one run set up).
+//@ func (c *factoryConstructor) callNewFactory
+//@ props C18
+//@ may_panic true
+//@ at call c.newFactory.Call assert [the-given-configuration] arg(in) == maybeConf0
+//@ at return c.newFactory.Call assume [a-registered-factory-constructor-returns-the-factory-and-maybe-an-error] len(result_of(c.newFactory.Call, 0)) >= 1
+//@ ensures [one-run-of-the-registered-factory-constructor] calls(c.newFactory.Call) == 1
+//@ ensures [its-first-result-is-the-factory] len(result_of(c.newFactory.Call, 0)) >= 1 && factory == result_of(c.newFactory.Call, 0)[0]
+//@ ensures [no-second-result-no-error] imp(len(result_of(c.newFactory.Call, 0)) <= 1, err == nil)
+
+//@ func (c *pluginConstructor) NewPlugin
+//@ props C18
+//@ may_panic true
+//@ at call c.newPlugin.Call assert [the-given-configuration] arg(in) == maybeConf0
+//@ at return c.newPlugin.Call assume [a-registered-constructor-returns-the-component-and-maybe-an-error] len(result_of(c.newPlugin.Call, 0)) >= 1
+//@ ensures [one-construction] calls(c.newPlugin.Call) == 1
+//@ ensures [no-second-result-no-error] imp(len(result_of(c.newPlugin.Call, 0)) <= 1, err == nil)
+
+// Results of a registered constructor in the requested shape: one or two results; a non-nil error of the registered
+// constructor is never dropped: where the requested shape has no error result it becomes a panic.
+//@ func convertFactoryOutParams
+//@ props C18
+//@ may_panic true
+//@ requires len(out) >= 1 && len(out) <= 2
+//@ ensures [requested-number-of-results] len(result) == numOut && (numOut == 1 || numOut == 2)
+//@ ensures [a-dropped-error-result-was-nil] imp(len(out0) > numOut, calls(out[1].IsNil) == 1 && result_of(out[1].IsNil, 0))
+//@ ensures [missing-error-result-is-nil-error] imp(len(out0) < numOut, calls(reflect.Zero) == 1 && result[1] == result_of(reflect.Zero, 0))
+//@ at call reflect.Zero assert [zero-of-the-error-type] arg(typ) == errorType
+
+// Without a registered default every call creates a new zero value of the configuration type.
+//@ func newDefaultConfigContainer#lit0
+//@ props C18
+//@ may_panic true
+//@ ensures [a-new-zero-configuration-per-call] calls(reflect.Zero) == 1 && len(results) == 1 && results[0] == result_of(reflect.Zero, 0)
+//@ at call reflect.Zero assert [of-the-configuration-type] arg(typ) == configType
+
+// One default configuration per call, made addressable (struct) or non-nil (pointer) so that the decoder can fill it.
+//@ func (e defaultConfigContainer) new
+//@ props C18
+//@ may_panic true
+//@ at return e.newValue.Call assume [a-default-configuration-function-returns-the-configuration] len(result_of(e.newValue.Call, 0)) == 1
+//@ ensures [one-default-configuration-created] calls(e.newValue.Call) == 1 && len(maybeConf) == 1
+//@ ensures [nil-pointer-configuration-is-replaced-by-a-new-object] imp(result_of(conf.Kind, 0) == reflect.Ptr && calls(conf.IsNil) == 1 && result_of(conf.IsNil, 0), calls(reflect.New) == 1 && maybeConf[0] == result_of(reflect.New, 0))
